@@ -6,6 +6,7 @@ import (
 	"fmt"
 	"go/types"
 	"os"
+	"os/exec"
 	"path/filepath"
 	"sort"
 	"strings"
@@ -43,8 +44,9 @@ type Engine struct {
 	overlay  map[string][]byte
 	repoDir  string
 
-	redirect map[string]*ssa.Function // real primitive -> proven-equivalent scalar specification
-	sumNotes []string
+	redirect    map[string]*ssa.Function // real primitive -> proven-equivalent scalar specification
+	sumNotes    []string
+	lemmaFailed []string
 
 	encMu    sync.Mutex
 	encoded  map[string]bool // functions executed symbolically (for evidence)
@@ -81,12 +83,44 @@ func harnessOverlay() (map[string][]byte, error) {
 	return ov, nil
 }
 
+// collateOverlay returns x/text's collate.go with a hook in Collator.Key, so that native replays can
+// substitute the collation table a symbolic path chose (DESIGN §2.4). go-art's files are untouched.
+func collateOverlay() (string, []byte, error) {
+	lc := exec.Command("go", "list", "-m", "-f", "{{.Dir}}", "golang.org/x/text")
+	lc.Dir = repoDir
+	lc.Env = append(os.Environ(), "GOFLAGS=-mod=mod", "GOPROXY=off")
+	out, err := lc.Output()
+	if err != nil {
+		// fall back to the version pinned in go.mod
+		out = []byte(filepath.Join(os.Getenv("HOME"), "go/pkg/mod/golang.org/x/text@v0.23.0"))
+	}
+	dir := strings.TrimSpace(string(out))
+	path := filepath.Join(dir, "collate", "collate.go")
+	src, err := os.ReadFile(path)
+	if err != nil {
+		return "", nil, err
+	}
+	const anchor = "func (c *Collator) Key(buf *Buffer, str []byte) []byte {\n\t// See https://www.unicode.org/reports/tr10/#Main_Algorithm for more details.\n\tbuf.init()\n"
+	s := string(src)
+	if !strings.Contains(s, anchor) {
+		return "", nil, fmt.Errorf("x/text collate.go: Key has an unexpected shape, cannot install the replay hook")
+	}
+	s = strings.Replace(s, anchor, anchor+"\tif VerifKeyHook != nil {\n\t\tif out, ok := VerifKeyHook(str); ok {\n\t\t\tkn := len(buf.key)\n\t\t\tbuf.key = append(buf.key, out...)\n\t\t\treturn buf.key[kn:]\n\t\t}\n\t}\n", 1)
+	s += "\n// VerifKeyHook is installed by the verification overlay only.\nvar VerifKeyHook func(str []byte) ([]byte, bool)\n"
+	return path, []byte(s), nil
+}
+
 func LoadEngine(goarch string) (*Engine, error) {
 	t0 := time.Now()
 	ov, err := harnessOverlay()
 	if err != nil {
 		return nil, err
 	}
+	cpath, csrc, err := collateOverlay()
+	if err != nil {
+		return nil, err
+	}
+	ov[cpath] = csrc
 	env := append(os.Environ(), "GOFLAGS=-mod=mod", "GOPROXY=off")
 	wordBits := 64
 	if goarch != "" {
@@ -272,6 +306,9 @@ func (e *Engine) EstablishSummaries(workers int) []*Scenario {
 	for _, sp := range summaryPairs {
 		scns = append(scns, &Scenario{Harness: sp.harness, Params: []int{255}, Label: "summary:" + sp.real, NoSummaries: true})
 	}
+	lem := []*Scenario{{Harness: "hFpLemma32", Label: "lemma:float32 compare encoding", NoSummaries: true}, {Harness: "hFpLemma64", Label: "lemma:float64 compare encoding", NoSummaries: true},
+		{Harness: "hBigEndianLemma", Label: "lemma:encoding/binary.BigEndian summaries", NoSummaries: true}}
+	scns = append(scns, lem...)
 	ex := NewExplorer(e, workers)
 	ex.sampleMax = 0
 	if err := ex.Run(scns); err != nil {
@@ -291,5 +328,12 @@ func (e *Engine) EstablishSummaries(workers int) []*Scenario {
 		e.sumNotes = append(e.sumNotes, fmt.Sprintf("%s: equivalence with %s NOT established (violations=%d inconclusive=%d): real code is executed", sp.real, sp.spec, len(s.Violations), s.Inconclusive))
 	}
 	e.redirect = red
+	for _, s := range lem {
+		if s.Finished > 0 && s.Inconclusive == 0 && len(s.Violations) == 0 {
+			e.sumNotes = append(e.sumNotes, s.Label+": holds for all inputs (unsat)")
+		} else {
+			e.lemmaFailed = append(e.lemmaFailed, s.Label)
+		}
+	}
 	return scns
 }
